@@ -2515,7 +2515,15 @@ def step_rules(ctx, prefix):
                 if "Token::Comment" in sir.pat_str(a["pat"]):
                     cm.append(a["body"])
     probs = []
-    if len(cm) != 1:
+    # the loop form: `while let Token::Comment(_) = token { position = self.position(); token = <one raw read>; }`
+    wl = [x for x in sir.walk(f.body) if x.get("k") == "while" and x["cond"].get("k") == "let" and "Token::Comment" in sir.pat_str(x["cond"]["pat"])]
+    if not cm and len(wl) == 1:
+        reads = [y for y in sir.walk(wl[0]["body"]) if y.get("k") == "mcall" and y["m"].startswith("next")]
+        other = [sir.expr_str(y)[:60] for y in sir.walk(wl[0]["body"]) if y.get("k") in ("mcall", "call") and not (
+            y.get("k") == "mcall" and (y["m"].startswith("next") or y["m"] in ("position", "cloned", "clone", "map")))]
+        if len(reads) != 1 or reads[0]["m"] != "next_including_whitespace_and_comments" or other:
+            probs.append("the comment loop does more than read the next raw token: %s" % ([sir.expr_str(r_)[:50] for r_ in reads] + other))
+    elif len(cm) != 1:
         probs.append("%d comment branches found" % len(cm))
     else:
         calls = [sir.expr_str(y)[:60] for y in sir.walk(cm[0]) if y.get("k") in ("mcall", "call")]
@@ -2932,7 +2940,7 @@ def sourcemap_rules(ctx, prefix):
             and (col.split(".")[0] + "." in destr or "column" in destr) and (line in destr or line.split(".")[0] + "." in destr)
         obs.append(ob("%s.src/position" % prefix, ok, ctx.where(f), "positions are (line, column-1) of cssparser's current_source_location: %s" % ok))
     # the position of a StepToken is sampled immediately before a cssparser call that consumes exactly one token
-    sps = [f for f in sc.fns if f.base == "StepParser" and f.body]
+    sps = [f for f in sc.fns if f.base == "StepParser" and f.body and not getattr(f, "inlined", False)]
     raw = []
     for f in sps:
         pm = sir.parent_map(f.body)
@@ -2956,16 +2964,24 @@ def sourcemap_rules(ctx, prefix):
                     blk = par
                     break
             cur = par
-        if not (prev is not None and prev.get("k") == "local" and prev["pat"].get("name") == "position" and prev.get("init") is not None and sir.expr_str(prev["init"]).replace(" ", "") == "self.position()"):
+        pe_ = prev.get("e") if prev is not None and prev.get("k") == "expr" else None
+        resampled = pe_ is not None and pe_.get("k") in ("assign", "binary") and pe_.get("op", "=") == "=" and sir.expr_str(pe_["l"]) == "position" and sir.expr_str(pe_["r"]).replace(" ", "") == "self.position()"
+        if not resampled and not (prev is not None and prev.get("k") == "local" and prev["pat"].get("name") == "position" and prev.get("init") is not None and sir.expr_str(prev["init"]).replace(" ", "") == "self.position()"):
             probs.append("%s: the statement before the token read is not `let position = self.position()`" % f.name)
             continue
         lits = [x for x in sir.walk(blk) if x.get("k") == "struct" and sir.expr_str(x).startswith("StepToken")]
         wraps = [x for x in sir.walk(blk) if x.get("k") == "call" and (sir.call_path(x) or "").endswith("StepToken::wrap") and len(x["args"]) == 2]
+        if not (lits or wraps):
+            # the read sits in a comment-skipping loop: the token is built after the loop, from the variables the loop re-assigns
+            lits = [x for x in sir.walk(f.body) if x.get("k") == "struct" and sir.expr_str(x).startswith("StepToken")]
+            wraps = [x for x in sir.walk(f.body) if x.get("k") == "call" and (sir.call_path(x) or "").endswith("StepToken::wrap") and len(x["args"]) == 2]
+            blk = f.body
         ok_lits = all(any(fl["name"] == "position" and sir.expr_str(fl["e"]) == "position" for fl in x["fields"]) for x in lits)
         ok_wraps = all(sir.expr_str(sir.strip_ref(x["args"][1])) in ("position", "position.clone()") for x in wraps)
         if not (lits or wraps) or not ok_lits or not ok_wraps:
             probs.append("%s: the StepToken built from that read does not carry that position" % f.name)
-        cm = [x for x in sir.walk(blk) if x.get("k") in ("if", "match") and "Token::Comment" in sir.expr_str(x.get("cond") or x.get("e")) + " ".join(sir.pat_str(a["pat"]) for a in x.get("arms", [])) + (sir.pat_str(x["cond"]["pat"]) if x.get("k") == "if" and x["cond"].get("k") == "let" else "")]
+        cm = [x for x in sir.walk(f.body) if x.get("k") == "while" and x["cond"].get("k") == "let" and "Token::Comment" in sir.pat_str(x["cond"]["pat"])] or \
+             [x for x in sir.walk(blk) if x.get("k") in ("if", "match") and "Token::Comment" in sir.expr_str(x.get("cond") or x.get("e")) + " ".join(sir.pat_str(a["pat"]) for a in x.get("arms", [])) + (sir.pat_str(x["cond"]["pat"]) if x.get("k") == "if" and x["cond"].get("k") == "let" else "")]
         if not cm:
             probs.append("%s: comments are not filtered out of the raw token stream" % f.name)
     obs.append(ob("%s.src/sampled-at-token" % prefix, bool(raw) and not probs, "glass-easel-stylesheet-compiler/src/step.rs",
